@@ -17,6 +17,88 @@ PI = "acryo/pipe/_imread.py"
 PU = "acryo/pipe/_curry.py"
 
 
+BIN_AST = {ast.Add: 0, ast.Sub: 1, ast.Mult: 2, ast.Div: 3}
+CMP_AST = {ast.Lt: 0, ast.LtE: 1, ast.Gt: 2, ast.GtE: 3, ast.Eq: 4, ast.NotEq: 5}
+CMP_NP = {"less": 0, "less_equal": 1, "greater": 2, "greater_equal": 3, "equal": 4, "not_equal": 5}
+CMP_MIRROR = {0: 2, 1: 3, 2: 0, 3: 1, 4: 4, 5: 5}
+METHODS = {"__add__": (0, 0), "__sub__": (0, 1), "__mul__": (0, 2), "__truediv__": (0, 3),
+           "__lt__": (1, 0), "__le__": (1, 1), "__gt__": (1, 2), "__ge__": (1, 3), "__eq__": (1, 4), "__ne__": (1, 5)}
+
+
+def op_dispatch(tree, src):
+    """Tabulate, for class (0 provider, 1 converter), branch (0 same class, 1 converter-with-provider, 2 constant) and
+    declared operator, the operator the lambda in that branch really applies to (self(...), other(...)).  Fail closed."""
+    from translate import find_def
+    helpers = {}
+    for node in tree.body:
+        if isinstance(node, ast.FunctionDef) and node.name.startswith("_") and len(node.args.args) == 2:
+            r = [n for n in node.body if isinstance(n, ast.Return)]
+            if len(r) == 1 and isinstance(r[0].value, ast.Call):
+                c = r[0].value
+                inner = c.func.value if isinstance(c.func, ast.Attribute) and c.func.attr == "astype" else c
+                if (isinstance(inner, ast.Call) and isinstance(inner.func, ast.Attribute) and inner.func.attr in CMP_NP
+                        and [ast.unparse(x) for x in inner.args] == [node.args.args[0].arg, node.args.args[1].arg]):
+                    helpers[node.name] = CMP_NP[inner.func.attr]
+
+    def operand(n, cls, branch, which):
+        t = norm(ast.unparse(n))
+        selfcall = "self(scale)" if cls == 0 else "self(x,scale)"
+        other = {0: ("other(scale)" if cls == 0 else "other(x,scale)"), 1: "other(scale)", 2: "other"}[branch]
+        if t == selfcall: return "self"
+        if t == other: return "other"
+        raise Untranslatable(f"operand {t!r} is neither {selfcall} nor {other}")
+
+    def applied(body, kind, cls, branch):
+        if isinstance(body, ast.BinOp) and type(body.op) in BIN_AST:
+            k, code, l, r = 0, BIN_AST[type(body.op)], body.left, body.right
+        elif isinstance(body, ast.Compare) and len(body.ops) == 1 and type(body.ops[0]) in CMP_AST:
+            k, code, l, r = 1, CMP_AST[type(body.ops[0])], body.left, body.comparators[0]
+        elif isinstance(body, ast.Call) and isinstance(body.func, ast.Name) and body.func.id in helpers and len(body.args) == 2:
+            k, code, l, r = 1, helpers[body.func.id], body.args[0], body.args[1]
+        else:
+            raise Untranslatable(f"unrecognised operator body {ast.unparse(body)!r}")
+        if k != kind:
+            raise Untranslatable(f"{ast.unparse(body)!r}: arithmetic/comparison kind differs from the method's")
+        a, b = operand(l, cls, branch, 0), operand(r, cls, branch, 1)
+        if (a, b) == ("self", "other"): return code
+        if (a, b) == ("other", "self") and k == 1: return CMP_MIRROR[code]
+        if (a, b) == ("other", "self") and code in (0, 2): return code
+        raise Untranslatable(f"operands of {ast.unparse(body)!r} are not (self, other)")
+
+    def the_lambda(ret):
+        lams = [n for n in ast.walk(ret) if isinstance(n, ast.Lambda)]
+        if len(lams) != 1: raise Untranslatable("expected exactly one lambda in the return")
+        want = ["scale"], ["x", "scale"]
+        if [a.arg for a in lams[0].args.args] not in want: raise Untranslatable("lambda parameters")
+        return lams[0].body
+
+    rows = []
+    for cls, cname in ((0, "ImageProvider"), (1, "ImageConverter")):
+        for meth, (kind, code) in METHODS.items():
+            fn = find_def(tree, f"{cname}.{meth}")
+            stmts = [n for n in fn.body if not (isinstance(n, ast.If) and "isscalar" in ast.unparse(n.test))]
+            found = {}
+            for st in stmts:
+                cur = st
+                while isinstance(cur, ast.If):
+                    t = norm(ast.unparse(cur.test))
+                    br = {"isinstance(other,ImageProvider)": (0 if cls == 0 else 1), "isinstance(other,ImageConverter)": (0 if cls == 1 else None)}.get(t)
+                    if br is None or len(cur.body) != 1 or not isinstance(cur.body[0], ast.Return):
+                        raise Untranslatable(f"{cname}.{meth}: unexpected branch {t}")
+                    found[br] = applied(the_lambda(cur.body[0]), kind, cls, br)
+                    cur = cur.orelse[0] if len(cur.orelse) == 1 else (None if not cur.orelse else cur.orelse)
+                    if isinstance(cur, list): raise Untranslatable("multi-statement else")
+                if isinstance(cur, ast.Return):
+                    found[2] = applied(the_lambda(cur), kind, cls, 2)
+            need = {0, 2} if cls == 0 else {0, 1, 2}
+            if set(found) != need: raise Untranslatable(f"{cname}.{meth}: branches {sorted(found)}")
+            for br, got in sorted(found.items()):
+                rows.append((kind, cls, br, code, got))
+    body = "\n".join(f"  | {k}, {c}, {b}, {o} => {g}" for k, c, b, o, g in rows)
+    return ("(* kind 0 arithmetic (0 + 1 - 2 * 3 /), kind 1 comparison (0 < 1 <= 2 > 3 >= 4 == 5 !=) *)\n"
+            "Definition op_dispatch (kind cls branch op : Z) : Z :=\n  match kind, cls, branch, op with\n" + body + "\n  | _, _, _, _ => -1\n  end.")
+
+
 def anchors(a: Anchors):
     a.fact("radd_is_self_plus_other", PC, "_Pipeline.__radd__", "return self + other", lambda fn: "returnself+other" in norm(ast.unparse(fn)))
     a.fact("rmul_is_self_times_other", PC, "_Pipeline.__rmul__", "return self * other", lambda fn: "returnself*other" in norm(ast.unparse(fn)))
@@ -36,6 +118,7 @@ def anchors(a: Anchors):
                                                                "returnother.__class__(fn)"]))
     a.fact("binops_are_voxelwise", PC, "ImageProvider.__sub__", "lambda scale: self(scale) - other(scale) / self(scale) - other",
            lambda fn: "lambdascale:self(scale)-other(scale)" in norm(ast.unparse(fn)) and "lambdascale:self(scale)-other" in norm(ast.unparse(fn)))
+    a.raw("op_dispatch", PC, "", "operator actually applied by each branch of every operator method of ImageProvider / ImageConverter", op_dispatch)
     a.fact("curry_provider", PU, "provider_function", "ImageProvider(lambda scale: _fn(scale, *args, **kwargs))",
            lambda fn: "returnImageProvider(lambdascale:_fn(scale,*args,**kwargs))" in norm(ast.unparse(fn)))
     a.fact("curry_converter", PU, "converter_function", "ImageConverter(lambda img, scale: _fn(img, scale, *args, **kwargs))",
@@ -143,10 +226,20 @@ def gen_p(rng, P, C, depth, top=False, R=None):
 
 def gen_c(rng, P, C, depth, top=False, R=None):
     PR, CR = R
-    k = int(rng.integers(0, 9 if top else 8)) if depth > 0 else 0
+    k = int(rng.integers(0, 11 if top else 8)) if depth > 0 else 0
     if k <= 1 or depth == 0:
         i = int(rng.integers(0, 4))
         return C[i], f"(CLeaf Q {natl(i)})", f"C{i}", CR[i]
+    if k == 9:
+        o = COPS[int(rng.integers(0, 6))]
+        c, ct, cd, cr = gen_c(rng, P, C, depth - 1, R=R)
+        d, dt, dd, dr = gen_c(rng, P, C, depth - 1, R=R)
+        return PYC[o](c, d), f"(CCmp Q {o} {ct} {dt})", f"({cd} {o} {dd})", (lambda x, s, o=o, cr=cr, dr=dr: PYC[o](cr(x, s), dr(x, s)))
+    if k == 10:
+        o = COPS[int(rng.integers(0, 6))]
+        c, ct, cd, cr = gen_c(rng, P, C, depth - 1, R=R)
+        p, pt, pd, pr = gen_p(rng, P, C, depth - 1, R=R)
+        return PYC[o](c, p), f"(CCmpP Q {o} {ct} {pt})", f"({cd} {o} {pd})", (lambda x, s, o=o, cr=cr, pr=pr: PYC[o](cr(x, s), pr(s)))
     if k == 2:
         c, ct, cd, cr = gen_c(rng, P, C, depth - 1, R=R)
         d, dt, dd, dr = gen_c(rng, P, C, depth - 1, R=R)
@@ -180,18 +273,129 @@ def gen_c(rng, P, C, depth, top=False, R=None):
     return PYC[o](c, float(kk)), f"(CCmpC Q {o} {ct} {ql(kk)})", f"({cd} {o} {float(kk)})", (lambda x, s, o=o, cr=cr, kk=kk: PYC[o](cr(x, s), float(kk)))
 
 
+class Ex:
+    """exact dyadic number that records whether every intermediate value of a reference evaluation is a binary64 number,
+    so that the exact (Q) model and the float implementation are only compared where float arithmetic is exact"""
+    inexact = False
+    __slots__ = ("v",)
+
+    def __init__(self, v):
+        self.v = v.v if isinstance(v, Ex) else Fraction(v)
+        n, d = abs(self.v.numerator), self.v.denominator
+        if n:
+            n >>= ((n & -n).bit_length() - 1)
+            if n.bit_length() > 53 or d.bit_length() > 1000 or (d & (d - 1)) or abs(self.v) > 2 ** 1000:
+                Ex.inexact = True
+
+    def _b(op):
+        def f(self, o):
+            return Ex(op(self.v, Ex(o).v))
+        def r(self, o):
+            return Ex(op(Ex(o).v, self.v))
+        return f, r
+    __add__, __radd__ = _b(lambda a, b: a + b)
+    __sub__, __rsub__ = _b(lambda a, b: a - b)
+    __mul__, __rmul__ = _b(lambda a, b: a * b)
+    __truediv__, __rtruediv__ = _b(lambda a, b: a / b)
+    def __neg__(self): return Ex(-self.v)
+    def __lt__(self, o): return self.v < Ex(o).v
+    def __le__(self, o): return self.v <= Ex(o).v
+    def __gt__(self, o): return self.v > Ex(o).v
+    def __ge__(self, o): return self.v >= Ex(o).v
+    def __eq__(self, o): return self.v == Ex(o).v
+    def __ne__(self, o): return self.v != Ex(o).v
+    __hash__ = None
+
+
+def exarr(a):
+    out = np.empty(a.shape, dtype=object)
+    for idx in np.ndindex(a.shape):
+        out[idx] = Ex(Fraction(float(a[idx])))
+    return out
+
+
+def float_exact(ref, arrs, scale, x=None):
+    """True when every intermediate of the reference evaluation is exactly representable in binary64"""
+    saved = list(arrs)
+    Ex.inexact = False
+    try:
+        for i in range(len(arrs)):
+            arrs[i] = exarr(saved[i])
+        if x is None:
+            ref(Ex(Fraction(scale)))
+        else:
+            ref(exarr(x), Ex(Fraction(scale)))
+    except (ZeroDivisionError, OverflowError):
+        Ex.inexact = True
+    finally:
+        arrs[:] = saved
+    return not Ex.inexact
+
+
 def ref_leaves(arrs):
-    """reference meaning of the leaves, written from their definitions"""
-    PR = [lambda s, a=arrs[0]: a, lambda s, a=arrs[1]: a, lambda s, a=arrs[2]: a, lambda s, a=arrs[0]: np.full(a.shape, 8.0 * s)]
+    """reference meaning of the leaves, written from their definitions (arrs is looked up at call time: see float_exact)"""
+    PR = [lambda s: arrs[0], lambda s: arrs[1], lambda s: arrs[2], lambda s: np.full(arrs[0].shape, 8.0 * s)]
     CR = [lambda x, s: x * 2.0, lambda x, s: x + 4.0 * s, lambda x, s: x * x, lambda x, s: 10.0 - x]
     return PR, CR
+
+
+def _emit(ck, cases, arrs, al, scale, obj, term, desc, ref, x=None):
+    """evaluate one expression on the implementation, compare with its reference meaning, and queue the model case"""
+    kind = "provider" if x is None else "converter"
+    out = np.asarray(obj(scale) if x is None else obj(x, scale), dtype=np.float64)
+    want = np.asarray(ref(scale) if x is None else ref(x, scale), dtype=np.float64)
+    ck.oracle_count('expression_meaning', 1, 1)
+    if np.all(np.isfinite(want)) and not np.array_equal(out, want):
+        inp = {'expr': desc, 'scale': scale, 'arrays': [a.ravel().tolist() for a in arrs]}
+        if x is not None: inp['x'] = x.ravel().tolist()
+        ck.violation(what=f'pipeline expression {desc} evaluates to {out.ravel().tolist()} but means {want.ravel().tolist()}', inp=inp,
+                     key={'site': 'expr-meaning', 'kind': kind}, oracle='expression_meaning')
+    if not np.all(np.isfinite(out)) or not float_exact(ref, arrs, scale, x):
+        return False
+    if x is None:
+        cases.append((f"(check_pexpr {al} {term} {ql(frac(scale))} {qlist([frac(float(v)) for v in out.ravel()])})",
+                      {"kind": kind, "expr": desc, "scale": scale, "out": out.ravel().tolist()}))
+    else:
+        cases.append((f"(check_cexpr {al} {term} {qlist([frac(float(v)) for v in x.ravel()])} {ql(frac(scale))} {qlist([frac(float(v)) for v in out.ravel()])})",
+                      {"kind": kind, "expr": desc, "scale": scale, "out": out.ravel().tolist()}))
+    return True
+
+
+def directed_exprs(P, C, R):
+    """every operator method x branch once, on leaves whose values tie in some voxels (x = [1,2,0,4], P0 = [2,4,1,8], C0 = 2x)"""
+    PR, CR = R
+    out = []
+    for o in BOPS:
+        out.append((PYB[o](P[0], P[1]), f"(PBin Q {o} (PLeaf Q 0%nat) (PLeaf Q 1%nat))", f"(P0 {o} P1)", (lambda s, o=o: PYB[o](PR[0](s), PR[1](s))), False))
+        out.append((PYB[o](P[0], 2.0), f"(PBinC Q {o} (PLeaf Q 0%nat) {ql(Fraction(2))})", f"(P0 {o} 2.0)", (lambda s, o=o: PYB[o](PR[0](s), 2.0)), False))
+        out.append((PYB[o](4.0, P[0]), f"(PRBin Q {o} {ql(Fraction(4))} (PLeaf Q 0%nat))", f"(4.0 {o} P0)", (lambda s, o=o: PYB[o](4.0, PR[0](s))), False))
+        out.append((PYB[o](C[0], C[1]), f"(CBin Q {o} (CLeaf Q 0%nat) (CLeaf Q 1%nat))", f"(C0 {o} C1)", (lambda x, s, o=o: PYB[o](CR[0](x, s), CR[1](x, s))), True))
+        out.append((PYB[o](C[0], P[0]), f"(CBinP Q {o} (CLeaf Q 0%nat) (PLeaf Q 0%nat))", f"(C0 {o} P0)", (lambda x, s, o=o: PYB[o](CR[0](x, s), PR[0](s))), True))
+        out.append((PYB[o](C[1], 2.0), f"(CBinC Q {o} (CLeaf Q 1%nat) {ql(Fraction(2))})", f"(C1 {o} 2.0)", (lambda x, s, o=o: PYB[o](CR[1](x, s), 2.0)), True))
+        out.append((PYB[o](4.0, C[1]), f"(CRBin Q {o} {ql(Fraction(4))} (CLeaf Q 1%nat))", f"(4.0 {o} C1)", (lambda x, s, o=o: PYB[o](4.0, CR[1](x, s))), True))
+    for o in COPS:
+        out.append((PYC[o](P[0], P[1]), f"(PCmp Q {o} (PLeaf Q 0%nat) (PLeaf Q 1%nat))", f"(P0 {o} P1)", (lambda s, o=o: PYC[o](PR[0](s), PR[1](s))), False))
+        out.append((PYC[o](P[0], 4.0), f"(PCmpC Q {o} (PLeaf Q 0%nat) {ql(Fraction(4))})", f"(P0 {o} 4.0)", (lambda s, o=o: PYC[o](PR[0](s), 4.0)), False))
+        out.append((PYC[o](C[0], C[2]), f"(CCmp Q {o} (CLeaf Q 0%nat) (CLeaf Q 2%nat))", f"(C0 {o} C2)", (lambda x, s, o=o: PYC[o](CR[0](x, s), CR[2](x, s))), True))
+        out.append((PYC[o](C[0], P[0]), f"(CCmpP Q {o} (CLeaf Q 0%nat) (PLeaf Q 0%nat))", f"(C0 {o} P0)", (lambda x, s, o=o: PYC[o](CR[0](x, s), PR[0](s))), True))
+        out.append((PYC[o](C[0], 4.0), f"(CCmpC Q {o} (CLeaf Q 0%nat) {ql(Fraction(4))})", f"(C0 {o} 4.0)", (lambda x, s, o=o: PYC[o](CR[0](x, s), 4.0)), True))
+    return out
 
 
 def corr_expr(ck, rng):
     n = 150 if ck.tier == "quick" else 2500
     maxd = 4 if ck.tier == "quick" else 7
     cases = []
-    kinds = {}
+    skipped = 0
+    # directed: one expression per operator method and branch, with ties
+    arrs = [np.array([2.0, 4.0, 1.0, 8.0]).reshape(1, 2, 2), np.array([2.0, 8.0, 4.0, 8.0]).reshape(1, 2, 2), np.array([1.0, 1.0, 2.0, 4.0]).reshape(1, 2, 2)]
+    P, C = leaves(arrs)
+    R = ref_leaves(arrs)
+    al = lst([qlist([frac(float(v)) for v in a.ravel()]) for a in arrs])
+    x0 = np.array([1.0, 2.0, 0.0, 4.0]).reshape(1, 2, 2)
+    for obj, term, desc, ref, is_conv in directed_exprs(P, C, R):
+        if not _emit(ck, cases, arrs, al, 0.5, obj, term, desc, ref, x0 if is_conv else None):
+            skipped += 1
     for i in range(n):
         arrs = [rng.choice([1.0, 2.0, 4.0, 8.0], size=(1, 2, 2)).astype(np.float64) for _ in range(3)]
         P, C = leaves(arrs)
@@ -202,29 +406,15 @@ def corr_expr(ck, rng):
         try:
             if i % 3:
                 obj, term, desc, ref = gen_p(rng, P, C, depth, top=True, R=R)
-                out = np.asarray(obj(scale), dtype=np.float64)
-                want = np.asarray(ref(scale), dtype=np.float64)
-                ck.oracle_count('expression_meaning', 1, 1)
-                if np.all(np.isfinite(want)) and not np.array_equal(out, want):
-                    ck.violation(what=f'pipeline expression {desc} evaluates to {out.ravel().tolist()} but means {want.ravel().tolist()}', inp={'expr': desc, 'scale': scale, 'arrays': [a.ravel().tolist() for a in arrs]}, key={'site': 'expr-meaning', 'kind': 'provider'}, oracle='expression_meaning')
-                if not np.all(np.isfinite(out)):
-                    continue
-                cases.append((f"(check_pexpr {al} {term} {ql(frac(scale))} {qlist([frac(float(v)) for v in out.ravel()])})",
-                              {"kind": "provider", "expr": desc, "scale": scale, "out": out.ravel().tolist()}))
+                ok = _emit(ck, cases, arrs, al, scale, obj, term, desc, ref)
             else:
                 obj, term, desc, ref = gen_c(rng, P, C, depth, top=True, R=R)
                 x = rng.integers(0, 5, size=(1, 2, 2)).astype(np.float64)
-                out = np.asarray(obj(x, scale), dtype=np.float64)
-                want = np.asarray(ref(x, scale), dtype=np.float64)
-                ck.oracle_count('expression_meaning', 1, 1)
-                if np.all(np.isfinite(want)) and not np.array_equal(out, want):
-                    ck.violation(what=f'pipeline expression {desc} evaluates to {out.ravel().tolist()} but means {want.ravel().tolist()}', inp={'expr': desc, 'scale': scale, 'x': x.ravel().tolist(), 'arrays': [a.ravel().tolist() for a in arrs]}, key={'site': 'expr-meaning', 'kind': 'converter'}, oracle='expression_meaning')
-                if not np.all(np.isfinite(out)):
-                    continue
-                cases.append((f"(check_cexpr {al} {term} {qlist([frac(float(v)) for v in x.ravel()])} {ql(frac(scale))} {qlist([frac(float(v)) for v in out.ravel()])})",
-                              {"kind": "converter", "expr": desc, "scale": scale, "out": out.ravel().tolist()}))
+                ok = _emit(ck, cases, arrs, al, scale, obj, term, desc, ref, x)
+            skipped += 0 if ok else 1
         except ZeroDivisionError:
             continue
+    ck.oracle_count('expression_meaning', 0, 0, skipped_non_finite_or_inexact=skipped)
     ck.corr_run("pipeline_expressions", ["AcryoGen.Anchors_C19", "Acryo.C19.Model"], cases, shard=150, observable=True,
                 describe=lambda c: {"site": "expr", "kind": c["kind"], "reflected_sub": " Sub " in c["expr"] and c["expr"].count("(") > 0})
 
@@ -238,7 +428,7 @@ def corr_units(ck, rng):
         s = float(rng.choice([1.0, 0.5, 2.0, 0.25]))
         cases.append((f"(check_radius {ql(Fraction(r))} {ql(Fraction(s))} {zl(_get_radius_px(r, s))})", {"what": "radius_px", "radius": r, "scale": s}))
     for i in range(30 if ck.tier == "quick" else 300):
-        shape = float(rng.choice([4.0, 5.0, 6.5, 9.0, 3.0])); shift = float(rng.choice([0.0, 1.0, -1.5, 0.5])); scale = float(rng.choice([1.0, 0.5, 2.0]))
+        shape = float(rng.choice([4.0, 5.0, 6.5, 9.0, 3.0, 7.3, 5.2])); shift = float(rng.choice([0.0, 1.0, -1.5, 0.5])); scale = float(rng.choice([1.0, 0.5, 2.0]))
         g = np.asarray(pipe.from_gaussian((shape,) * 3, sigma=1.0 * scale, shift=(shift, 0.0, 0.0))(scale))
         am = np.unravel_index(np.argmax(g), g.shape)
         # sub-voxel location of the maximum along z from the three samples around the arg-max (log-parabola): exact for a Gaussian
@@ -246,6 +436,16 @@ def corr_units(ck, rng):
         if 0 < z < g.shape[0] - 1:
             l = np.log(np.maximum(g[z - 1:z + 2, am[1], am[2]], 1e-300))
             z = z + 0.5 * (l[0] - l[2]) / (l[0] - 2 * l[1] + l[2])
+        # implementation-only oracle: the peak sits at the centre of the returned box plus the shift
+        ck.oracle_count("gaussian_centre", 1, 1 if (shape / scale) % 1 else 0)
+        want_z = (g.shape[0] - 1) / 2 + shift / scale
+        sym = shift == 0.0 and not np.allclose(g, g[::-1, ::-1, ::-1], atol=1e-6)
+        interior = 0 < am[0] < g.shape[0] - 1      # the log-parabola refinement needs both neighbours
+        if (interior and abs(float(z) - want_z) > 1e-3) or (not interior and 1 <= want_z <= g.shape[0] - 2) or sym:
+            ck.violation(what=f"from_gaussian(shape={shape} nm, shift={shift} nm)(scale={scale}): {g.shape[0]}-voxel box, peak at z={float(z):.4f} "
+                              f"but centre + shift is {want_z:.4f}" + ("; zero-shift image not point-symmetric" if sym else ""),
+                         inp={"shape_nm": shape, "shift_nm": shift, "scale": scale, "sigma_nm": scale}, key={"site": "from_gaussian-centre", "integer_ratio": not (shape / scale) % 1},
+                         oracle="gaussian_centre", measured=abs(float(z) - want_z))
         cases.append((f"(check_gauss {ql(Fraction(shape))} {ql(Fraction(shift))} {ql(Fraction(scale))} {zl(g.shape[0])} {ql(frac(float(z)))})",
                       {"what": "from_gaussian", "shape_nm": shape, "shift_nm": shift, "scale": scale, "n": g.shape[0], "peak_z": float(z)}))
     ck.corr_run("physical_units", ["AcryoGen.Anchors_C19", "Acryo.C19.Model"], cases, shard=400, observable=True,
